@@ -161,6 +161,7 @@ def run(cx):
     yangstrcomp.run_strings(cx)
     yincomp.run_yin(cx)
     run_modules(cx)
+    yincomp.run_card(cx)
 
 
 def replay(cx, payload):
